@@ -149,7 +149,9 @@ def example_programs(tier):
         p = relabel(Program("exp", If(((Cmp(Id("fld"), "==", Lit(v, text=t)), R1()),), R1()), None, ("uid",)))
         items.append(("number-vs-string", p, "real", {"fld": "str"}))
     tuples = [Tup((Lit(1), Lit(2), Lit(3))), Tup((Lit("a"), Lit("b"))), Tup((Lit(1), Lit("1"), Lit(1.0, text="1.0"))),
-              Tup((Tup((Lit(1), Lit(2))), Lit(3))), Tup((Lit("02134"), Lit(2134))), Tup((Lit(-1), Lit(-0.5)))]
+              Tup((Tup((Lit(1), Lit(2))), Lit(3))), Tup((Lit("02134"), Lit(2134))), Tup((Lit(-1), Lit(-0.5))),
+              # one-member tuples: `x in ("US")` is membership in a 1-tuple, not a substring / scalar test
+              Tup((Lit("US"),)), Tup((Lit(5),)), Tup((Tup((Lit(1), Lit(2))),))]
     for tp in tuples:
         for op in ("in", "not in"):
             p = relabel(Program("exp", If(((Cmp(Id("fld"), op, tp), R1()),), R1()), None, ("uid",)))
@@ -157,7 +159,7 @@ def example_programs(tier):
             items.append(("tuple", p, "real", {"fld": "str"}))
     # tuple literals used as VALUES (operands of == / != / < and nested members), with repeated members: a tuple-typed
     # field of the same and of a smaller length must be told apart
-    valued = [Tup((Lit(1), Lit(1))), Tup((Lit(-1), Lit(-1), Lit(0))), Tup((Lit("a"), Lit("a"))), Tup((Lit(2), Lit(3), Lit(2))),
+    valued = [Tup((Lit(1),)), Tup((Lit(1), Lit(1))), Tup((Lit(-1), Lit(-1), Lit(0))), Tup((Lit("a"), Lit("a"))), Tup((Lit(2), Lit(3), Lit(2))),
               Tup((Lit(1.5, text="1.5"), Lit(1.5, text="1.5")))]
     for tp in valued:
         es = "str" if isinstance(tp.items[0].value, str) else "num"
@@ -341,7 +343,7 @@ def main(tier):
         "functions_encoded": encoded,
         "stubs_used": sorted(stubs),
         "bounds": "model/render stages: any int, any string a DSL literal can contain, float; run stage: the property's example "
-                  "literals (%d strings, %d numbers, 6 tuples) over all field values of both sorts; numerals <= 300 digits; "
+                  "literals (%d strings, %d numbers, 10 tuples) over all field values of both sorts; numerals <= 300 digits; "
                   "tuple nesting <= 2" % (len(lf.STRINGS), len(lf.INTS + lf.NEG_INTS + lf.FLOATS + lf.NEG_FLOATS)),
     }
     common.write_evidence(PROP, "translation_validation", coverage,
